@@ -24,12 +24,14 @@ type jobSpec struct {
 	offs   []uint64
 	steps  int // battle: cycles stepped before Run
 	desc   string
+	probe  bool // asm: the text names the four predefined constants; the fields are known from cfg alone
 }
 
 type jobResult struct {
-	done bool
-	err  string
-	out  string
+	done     bool
+	err      string
+	out      string
+	probeBad string
 }
 
 // runJob executes a job; yield is called between API calls of battle jobs so
@@ -40,6 +42,12 @@ func runJob(j *jobSpec, tp *simrt.Tape, yield func()) (r jobResult) {
 		w, err := gi.CompileWarrior(simrt.NewReader(j.text, j.plan, tp), j.cfg)
 		r.err = fmt.Sprint(err != nil)
 		r.out = warIString(w)
+		if j.probe && err == nil && len(w.Code) == 2 {
+			got := [4]uint64{uint64(w.Code[0].A), uint64(w.Code[0].B), uint64(w.Code[1].A), uint64(w.Code[1].B)}
+			if got != probeWant(j.cfg) {
+				r.probeBad = fmt.Sprint("fields ", got, " for a configuration that denotes ", probeWant(j.cfg))
+			}
+		}
 	case "load":
 		w, err := gi.ParseLoadFile(simrt.NewReader(j.text, j.plan, tp), j.cfg)
 		r.err = fmt.Sprint(err != nil)
@@ -122,7 +130,43 @@ func genJobs(tp *simrt.Tape, res *Result) []*jobSpec {
 			res.stat("jobs.load", 1)
 		}
 	}
+	if tp.Draw("mj.sibling-probe", 3) == 0 {
+		// two assemblies of one text that names the predefined constants, under
+		// configurations that differ in exactly one value: anything remembered
+		// from one (by this case or an earlier one) shows in the other
+		c0 := cfgs[0]
+		if c0.Length < 2 && c0.CoreSize >= 2 {
+			c0.Length, c0.Distance = 2, 0
+		}
+		c1 := c0
+		switch tp.Draw("mj.sibling.field", 4) {
+		case 0:
+			room := int(c0.CoreSize) - int(c0.Length)
+			c1.Distance = gp.Address((int(c0.Distance) + 1 + tp.Draw("mj.sibling.dist", max(room, 1))) % (room + 1))
+		case 1:
+			c1.Processes = gp.Address(1 + (int(c0.Processes)+tp.Draw("mj.sibling.procs", 9000))%9000)
+		case 2:
+			if c0.Length > 2 {
+				c1.Length = gp.Address(2 + tp.Draw("mj.sibling.len", int(c0.Length)-2))
+			}
+		case 3:
+			c1.Cycles = c0.Cycles + 1
+		}
+		probeText := []byte("dat #CORESIZE-1, #MAXLENGTH\ndat #MAXPROCESSES, #MINDISTANCE\n")
+		for _, c := range []gp.SimulatorConfig{c0, c1} {
+			jobs = append(jobs, &jobSpec{kind: "asm", text: probeText, cfg: cfgI(c), plan: genLegalPlan(tp, len(probeText)), probe: true,
+				desc: fmt.Sprintf("asm predefined-constants probe %v", cfgMap(c))})
+		}
+		res.stat("probe.sibling-config-probe", 1)
+	}
 	return jobs
+}
+
+// probeWant is what the probe text denotes under cfg (the predefined names
+// carry the configuration's values, reduced into the core).
+func probeWant(c gi.SimulatorConfig) [4]uint64 {
+	m := uint64(c.CoreSize)
+	return [4]uint64{(m - 1) % m, uint64(c.Length) % m, uint64(c.Processes) % m, uint64(c.Distance) % m}
 }
 
 func sharedSnapshot(jobs []*jobSpec) string {
@@ -196,6 +240,14 @@ func caseMultiJob(t *testing.T, tp *simrt.Tape, res *Result) {
 	for i := range jobs {
 		if conc[i] != seq[i] {
 			res.add("C14", "C14 interference "+jobs[i].kind+" job result differs from its sequential result", map[string]any{"job": jobs[i].desc, "sequential": tail(seq[i].out, 600), "concurrent": tail(conc[i].out, 600)})
+		}
+	}
+	for i := range jobs {
+		for _, r := range []jobResult{seq[i], conc[i]} {
+			if r.probeBad != "" {
+				res.add("C14", "C14 isolation assembly under one configuration shows values of another configuration", map[string]any{"job": jobs[i].desc, "got": r.probeBad})
+				break
+			}
 		}
 	}
 	if sharedSnapshot(jobs) != before {
